@@ -147,12 +147,12 @@ Print Assumptions C01K_shift_right_arithmetic_signed_correct.
 (* finding: on unsigned types the plugin emits a logical shift, JAX replicates the top bit *)
 Theorem C01K_shift_right_arithmetic_unsigned_correct_refuted :
   exists x s, in_int U8 x /\ 0 <= s /\ lowered_sra_unsigned U8 x s <> jax_shift_right_arithmetic U8 x s.
-Proof. exact sra_unsigned_correct_refuted. Qed.
+Proof. exact sra_unsigned_prerepair_refuted. Qed.
 Print Assumptions C01K_shift_right_arithmetic_unsigned_correct_refuted.
 Theorem C01K_shift_right_arithmetic_unsigned_correct_partial : forall sb x s,
   0 < snd sb -> shift_dom sb -> 0 <= x < 2 ^ (snd sb - 1) -> 0 <= s ->
   lowered_sra_unsigned sb x s = jax_shift_right_arithmetic sb x s.
-Proof. exact sra_unsigned_correct_partial. Qed.
+Proof. exact sra_unsigned_prerepair_partial. Qed.
 Print Assumptions C01K_shift_right_arithmetic_unsigned_correct_partial.
 
 (* ---------------------------------------------------------------- comparisons *)
@@ -183,23 +183,25 @@ Print Assumptions C01K_ceil_correct.
 Theorem C01K_round_even_correct : forall q, frac_ok q -> lowered_round q = jax_round_even q.
 Proof. exact round_even_correct. Qed.
 Print Assumptions C01K_round_even_correct.
-(* finding: lax.round ignores rounding_method; the statement
+(* lax.round, AWAY_FROM_ZERO (the lax default) — the lowering of /repo since 3fcaa9c:
+   Where(Equal(Sub(Abs x, Floor(Abs x)), 0.5), Mul(Sign x, Add(Floor(Abs x), 1)), Round x) *)
+Theorem C01K_round_away_correct : forall q, frac_ok q -> lowered_round_away q = jax_round_away q.
+Proof. exact round_away_correct. Qed.
+Print Assumptions C01K_round_away_correct.
+(* history (fixed finding): before 3fcaa9c the plugin ignored rounding_method and emitted Round alone; the statement
      forall q, frac_ok q -> lowered_round q = jax_round_away q
-   is false (0.5 -> 0 instead of 1) *)
-Theorem C01K_round_away_correct_refuted : exists q, frac_ok q /\ lowered_round q <> jax_round_away q.
-Proof. exact round_away_correct_refuted. Qed.
-Print Assumptions C01K_round_away_correct_refuted.
-Theorem C01K_round_away_correct_iff : forall q, frac_ok q ->
+   is false (0.5 -> 0 instead of 1) and holds exactly where the two rounding modes agree *)
+Theorem C01K_round_away_prerepair_refuted : exists q, frac_ok q /\ lowered_round q <> jax_round_away q.
+Proof. exact round_away_prerepair_refuted. Qed.
+Print Assumptions C01K_round_away_prerepair_refuted.
+Theorem C01K_round_away_prerepair_iff : forall q, frac_ok q ->
   (lowered_round q = jax_round_away q <-> round_modes_agree q = true).
-Proof. exact round_away_correct_iff. Qed.
-Print Assumptions C01K_round_away_correct_iff.
-Theorem C01K_round_away_correct_partial : forall q, frac_ok q -> round_modes_agree q = true ->
+Proof. exact round_away_prerepair_iff. Qed.
+Print Assumptions C01K_round_away_prerepair_iff.
+Theorem C01K_round_away_prerepair_partial : forall q, frac_ok q -> round_modes_agree q = true ->
   lowered_round q = jax_round_away q.
-Proof. exact round_away_correct_partial. Qed.
-Print Assumptions C01K_round_away_correct_partial.
-Theorem C01K_round_away_repaired_correct : forall q, frac_ok q -> repaired_round_away q = jax_round_away q.
-Proof. exact repaired_round_away_correct. Qed.
-Print Assumptions C01K_round_away_repaired_correct.
+Proof. exact round_away_prerepair_partial. Qed.
+Print Assumptions C01K_round_away_prerepair_partial.
 
 (* ---------------------------------------------------------------- integer_pow, convert_element_type *)
 Theorem C01K_integer_pow_correct : forall sb x n, 0 < snd sb -> lowered_integer_pow sb x n = jax_integer_pow sb x n.
@@ -225,43 +227,73 @@ Proof. exact convert_of_bool_correct. Qed.
 Print Assumptions C01K_convert_of_bool_correct.
 
 (* ---------------------------------------------------------------- one_hot *)
-(* finding: the statement  forall i j, ... -> lowered_one_hot sb n i j = jax_one_hot n i j  is false:
-   one_hot(-1, 4) sets class 3 *)
-Theorem C01K_one_hot_correct_refuted :
-  exists i j, in_int I32 i /\ 0 <= j < 4 /\ lowered_one_hot I32 4 i j <> jax_one_hot 4 i j.
-Proof. exact one_hot_correct_refuted. Qed.
-Print Assumptions C01K_one_hot_correct_refuted.
-Theorem C01K_one_hot_correct_iff : forall sb n i j, In sb std_itys -> sb <> U64 -> in_int sb i -> 0 < n -> 0 <= j < n ->
-  (lowered_one_hot sb n i j = jax_one_hot n i j <-> ~ (- n <= i < 0 /\ i + n = j)).
-Proof. exact one_hot_correct_iff. Qed.
-Print Assumptions C01K_one_hot_correct_iff.
-Theorem C01K_one_hot_correct_partial : forall sb n i j, In sb std_itys -> sb <> U64 -> in_int sb i -> 0 < n -> 0 <= j < n ->
-  (0 <= i \/ i < - n) -> lowered_one_hot sb n i j = jax_one_hot n i j.
-Proof. exact one_hot_correct_partial. Qed.
-Print Assumptions C01K_one_hot_correct_partial.
-Theorem C01K_one_hot_repaired_correct : forall sb n i j, In sb std_itys -> sb <> U64 -> in_int sb i -> 0 < n -> 0 <= j < n ->
-  repaired_one_hot sb n i j = jax_one_hot n i j.
-Proof. exact repaired_one_hot_correct. Qed.
-Print Assumptions C01K_one_hot_repaired_correct.
+(* the lowering of /repo since ef51d4a: OneHot(Where(Less(i, 0), depth, i), depth, [0, 1]) for signed index types,
+   OneHot(i, ...) for unsigned ones — correct for EVERY index, in particular negative and >= n (all zeros) *)
+Theorem C01K_one_hot_correct : forall sb n i j, In sb std_itys -> sb <> U64 -> in_int sb i -> 0 < n -> 0 <= j < n ->
+  lowered_one_hot sb n i j = jax_one_hot n i j.
+Proof. exact one_hot_correct. Qed.
+Print Assumptions C01K_one_hot_correct.
+(* history (fixed finding): before ef51d4a the index went to OneHot unmasked; the statement
+     forall i j, ... -> prerepair_one_hot sb n i j = jax_one_hot n i j
+   is false: one_hot(-1, 4) sets class 3 *)
+Theorem C01K_one_hot_prerepair_refuted :
+  exists i j, in_int I32 i /\ 0 <= j < 4 /\ prerepair_one_hot I32 4 i j <> jax_one_hot 4 i j.
+Proof. exact one_hot_prerepair_refuted. Qed.
+Print Assumptions C01K_one_hot_prerepair_refuted.
+Theorem C01K_one_hot_prerepair_iff : forall sb n i j, In sb std_itys -> sb <> U64 -> in_int sb i -> 0 < n -> 0 <= j < n ->
+  (prerepair_one_hot sb n i j = jax_one_hot n i j <-> ~ (- n <= i < 0 /\ i + n = j)).
+Proof. exact one_hot_prerepair_iff. Qed.
+Print Assumptions C01K_one_hot_prerepair_iff.
+Theorem C01K_one_hot_prerepair_partial : forall sb n i j, In sb std_itys -> sb <> U64 -> in_int sb i -> 0 < n -> 0 <= j < n ->
+  (0 <= i \/ i < - n) -> prerepair_one_hot sb n i j = jax_one_hot n i j.
+Proof. exact one_hot_prerepair_partial. Qed.
+Print Assumptions C01K_one_hot_prerepair_partial.
 
 (* ---------------------------------------------------------------- dynamic_slice start index *)
-(* finding: the statement  forall i, ... -> lowered_dynamic_slice sb dim size i = jax_dynamic_slice sb dim size i
+(* the lowering of /repo since 7604d8b: Slice(x, st, st + size) with st = Min(Max(start, 0), dim - size) —
+   the window JAX takes for EVERY start index (negative, past the end, INT_MIN, INT_MAX) *)
+Theorem C01K_dynamic_slice_correct : forall sb dim size i,
+  sb = I32 \/ sb = I64 -> in_int sb i -> 1 <= size <= dim -> dim < 2 ^ 31 ->
+  lowered_dynamic_slice sb dim size i = jax_dynamic_slice sb dim size i.
+Proof. exact dynamic_slice_correct. Qed.
+Print Assumptions C01K_dynamic_slice_correct.
+(* history (fixed finding): before 7604d8b the start was not clamped; the statement
+     forall i, ... -> prerepair_dynamic_slice sb dim size i = jax_dynamic_slice sb dim size i
    is false: start 5 of a size-3 window over 6 elements gives 1 element (JAX clamps to start 3) *)
-Theorem C01K_dynamic_slice_correct_refuted :
-  exists i, in_int I32 i /\ lowered_dynamic_slice I32 6 3 i <> jax_dynamic_slice I32 6 3 i.
-Proof. exact dynamic_slice_correct_refuted. Qed.
-Print Assumptions C01K_dynamic_slice_correct_refuted.
-Theorem C01K_dynamic_slice_correct_partial : forall sb dim size i,
+Theorem C01K_dynamic_slice_prerepair_refuted :
+  exists i, in_int I32 i /\ prerepair_dynamic_slice I32 6 3 i <> jax_dynamic_slice I32 6 3 i.
+Proof. exact dynamic_slice_prerepair_refuted. Qed.
+Print Assumptions C01K_dynamic_slice_prerepair_refuted.
+Theorem C01K_dynamic_slice_prerepair_partial : forall sb dim size i,
   sb = I32 \/ sb = I64 -> in_int sb i -> 1 <= size <= dim -> dim < 2 ^ 31 ->
   (0 <= i <= dim - size \/ - dim <= i <= - size) ->
-  lowered_dynamic_slice sb dim size i = jax_dynamic_slice sb dim size i.
-Proof. exact dynamic_slice_correct_partial. Qed.
-Print Assumptions C01K_dynamic_slice_correct_partial.
-Theorem C01K_dynamic_slice_repaired_correct : forall sb dim size i,
-  sb = I32 \/ sb = I64 -> in_int sb i -> 1 <= size <= dim -> dim < 2 ^ 31 ->
-  repaired_dynamic_slice sb dim size i = jax_dynamic_slice sb dim size i.
-Proof. exact repaired_dynamic_slice_correct. Qed.
-Print Assumptions C01K_dynamic_slice_repaired_correct.
+  prerepair_dynamic_slice sb dim size i = jax_dynamic_slice sb dim size i.
+Proof. exact dynamic_slice_prerepair_partial. Qed.
+Print Assumptions C01K_dynamic_slice_prerepair_partial.
+
+(* ---------------------------------------------------------------- proved repairs of the remaining findings
+   (graphs of the pending patches .scratch/c01k/fix_neg_unsigned / fix_shift_signed / fix_sra_unsigned / fix_integer_pow .diff;
+   tie S accepts them next to the current lowered_k, so the check follows /repo when they are committed) *)
+Theorem C01K_neg_repaired_correct : forall sb x, 0 < snd sb -> in_int sb x -> repaired_neg sb x = jax_neg sb x.
+Proof. exact repaired_neg_correct. Qed.
+Print Assumptions C01K_neg_repaired_correct.
+Theorem C01K_shift_left_repaired_correct : forall sb x s, 0 < snd sb -> in_int sb s -> 0 <= s ->
+  repaired_shift_left sb x s = jax_shift_left sb x s.
+Proof. exact repaired_shift_left_correct. Qed.
+Print Assumptions C01K_shift_left_repaired_correct.
+Theorem C01K_shift_right_logical_repaired_correct : forall sb x s, 0 < snd sb -> in_int sb x -> in_int sb s -> 0 <= s ->
+  repaired_shift_right_logical sb x s = jax_shift_right_logical sb x s.
+Proof. exact repaired_shift_right_logical_correct. Qed.
+Print Assumptions C01K_shift_right_logical_repaired_correct.
+Theorem C01K_shift_right_arithmetic_unsigned_repaired_correct : forall sb x s,
+  0 < snd sb -> shift_dom sb -> in_int sb x -> in_int sb s ->
+  repaired_sra_unsigned sb x s = jax_shift_right_arithmetic sb x s.
+Proof. exact repaired_sra_unsigned_correct. Qed.
+Print Assumptions C01K_shift_right_arithmetic_unsigned_repaired_correct.
+Theorem C01K_integer_pow_repaired_correct : forall sb x n, 0 < snd sb -> in_int sb x ->
+  repaired_integer_pow sb x n = jax_integer_pow sb x n.
+Proof. exact repaired_integer_pow_correct. Qed.
+Print Assumptions C01K_integer_pow_repaired_correct.
 
 (* ---------------------------------------------------------------- the operator semantics the above rests on *)
 Theorem C01K_onnx_mod_is_floor_mod : forall sb x y, 0 < snd sb -> in_int sb x -> in_int sb y -> y <> 0 ->
